@@ -162,6 +162,7 @@ type World struct {
 	stats      Stats
 	fp         uint64
 	lastRan    string
+	lateCmd    string           // first command goroutine seen running after its emulator's termination had returned
 	stalled    map[string]int64 // task name -> step at which the stall ends
 	lastParks  map[string]int   // task name -> park count when last seen (arrival detection)
 	siteVisits map[string]int   // hook site -> arrivals in this run
@@ -754,6 +755,15 @@ func (w *World) loop() {
 			name := candName(&e.c)
 			w.lastRan = name
 			w.logf("T %s @%s", name, e.c.site)
+			if e.c.kind == "cmd" && w.lateCmd == "" {
+				// a command goroutine that still runs after the termination of its
+				// emulator has returned (C20 reads this)
+				for _, cl := range w.clients {
+					if cl.conn != nil && cl.connInst != nil && cl.connInst.closed && cl.connInst.closedStep < w.step && w.emuClientId(cl) == e.c.id {
+						w.lateCmd = fmt.Sprintf("%s at site %s (step %d; the termination of its emulator had returned at step %d)", name, e.c.site, w.step, cl.connInst.closedStep)
+					}
+				}
+			}
 			if e.c.site == "cs.spin" && e.c.spins > 400 {
 				w.viol = &Violation{Oracle: "livelock", Fp: "livelock:" + e.c.kind, Step: w.step,
 					Msg: fmt.Sprintf("task %s has only been spinning on the capture word for %d back-off sleeps", name, e.c.spins)}
